@@ -77,10 +77,14 @@ def invariants(msg, ref):
     for k, v in names.items():
         if id(v) not in listed:
             out.append(("I1-name-for-unlisted-avp", "attribute %s refers to an AVP that is not in the list" % k))
+    slots = {}
+    for o in lst:
+        slots[id(o)] = slots.get(id(o), 0) + 1
     for o in lst:
         n = named.get(id(o), [])
-        if len(n) != 1:
-            out.append(("I1-listed-avp-has-%d-names" % len(n), "listed AVP %s has names %r" % (label(o), n)))
+        # one name per list slot: an object that the application appended twice holds two slots and two names
+        if len(n) != slots[id(o)]:
+            out.append(("I1-listed-avp-has-%d-names" % len(n), "AVP %s fills %d slot(s) and has names %r" % (label(o), slots[id(o)], n)))
     for k in names:
         try:
             if not msg.has_avp(k):
@@ -145,6 +149,16 @@ def op_pop(which):
     f.__name__ = "pop(%s)" % which
     f.base = "pop"
     return f
+
+
+def op_append_again(msg, ref):
+    """the application appends an AVP object that is already listed (the same object, a second slot)"""
+    if not ref.lst:
+        return
+    a = ref.lst[len(ref.lst) // 2]
+    msg.append(a)
+    ref.lst.append(a)
+op_append_again.base = "append-same-object"
 
 
 def op_cleanup(msg, ref):
@@ -230,7 +244,7 @@ op_refresh.base = "refresh"
 OPS = [op_append("A"), op_append("A"), op_append("B"), op_append("U"), op_append("G"), op_append("R"), op_append("V"), op_append("P"),
        op_pop("first"), op_pop("last"), op_pop("mid"), op_cleanup, op_setavps("AB"), op_setavps("A"), op_setitem("first", "B"),
        op_setitem("last", "A"), op_setitem("last", "U"), op_setitem("first", "P"), op_update_key, op_update_avps("new.host"), op_update_avps("x"), op_refresh,
-       op_extend("AU"), op_append("S"), op_update_avp("a.much.longer.host.name"), op_update_avp("q")]
+       op_extend("AU"), op_append("S"), op_update_avp("a.much.longer.host.name"), op_update_avp("q"), op_append_again]
 OPS = OPS[1:]   # one append(A) is enough: every call creates a fresh, equal-valued object
 
 
